@@ -34,6 +34,7 @@ def check(ctx):
   ctx.rule('C14.R5', 'wrap: TimeoutError untouched, otherwise ScalesError(inner, text) when a stack was captured; caller gets set_exception of it')
   ctx.decline('agreement with the Thrift library codec for every value (delegated to generated write/read) and processor-side decoding are not decided')
   r1(ctx)
+  any_length(ctx)
   ser_ = prog.func('scales/thrift/serializer.py', 'MessageSerializer.SerializeThriftCall')
   wire.fresh_stream_rules(ctx, 'C14.R1', prog.func(TS, 'ThriftSerializerSink.AsyncProcessRequest'), [ser_])
   default_protocol(ctx)
@@ -537,3 +538,46 @@ def default_protocol(ctx):
            'the default binary protocol has no string/container length limit', not lim,
            'the default protocol factory is built with %s: a normal reply carrying a longer string or a larger container is turned into an error' % lim,
            'for every method and every argument/return value the reply yields its return value')
+
+
+def any_length(ctx):
+  """Frames of every length travel: the reply length read from the wire is used only to read that many bytes, and the request payload only to be measured for its
+  prefix and sent (no size limit on either side)."""
+  prog = ctx.prog
+  why = ('"for every argument and return value" includes the large ones: a transport that refuses a frame above some size (or a reply whose length it finds implausible) turns a valid call '
+         'into ClientError although the peer answered / would have answered')
+  g = prog.func(TS, 'SocketTransportSink._AsyncProcessTransaction')
+  parents = {}
+  for p in ast.walk(g.node):
+    for ch in ast.iter_child_nodes(p):
+      parents[id(ch)] = p
+  szs = []
+  for st in ast.walk(g.node):
+    if isinstance(st, ast.Assign) and isinstance(st.value, ast.Call) and call_name(st.value) in ('unpack', 'struct.unpack') and 'readAll(4)' in U(st.value).replace(' ', ''):
+      t = st.targets[0]
+      szs += [x.id for x in (t.elts if isinstance(t, ast.Tuple) else [t]) if isinstance(x, ast.Name)]
+  bad = []
+  for nm in szs:
+    for x in ast.walk(g.node):
+      if isinstance(x, ast.Name) and x.id == nm and isinstance(x.ctx, ast.Load):
+        p = parents.get(id(x))
+        if not (isinstance(p, ast.Call) and call_attr(p) in ('readAll', 'read', 'recv') and any(a is x for a in p.args)):
+          bad.append(U(p)[:60] if p is not None else nm)
+  ctx.ob('C14.R1', g, 'the reply length is used only to read that many bytes', bool(szs) and not bad, 'the reply length %s is also used in %s' % (szs, bad), why)
+  f = prog.func(TS, 'SocketTransportSink.AsyncProcessRequest')
+  parents = {}
+  for p in ast.walk(f.node):
+    for ch in ast.iter_child_nodes(p):
+      parents[id(ch)] = p
+  pl = [U(st.targets[0]) for st in ast.walk(f.node) if isinstance(st, ast.Assign) and 'getvalue()' in U(st.value) and isinstance(st.targets[0], ast.Name)]
+  bad = []
+  for nm in pl:
+    for x in ast.walk(f.node):
+      if isinstance(x, ast.Name) and x.id == nm and isinstance(x.ctx, ast.Load):
+        p = parents.get(id(x))
+        pp = parents.get(id(p)) if p is not None else None
+        ok = (isinstance(p, ast.Call) and U(p.func) == 'len' and isinstance(pp, ast.Call) and call_name(pp) in ('pack', 'struct.pack')) or \
+             (isinstance(p, ast.BinOp) and isinstance(p.op, ast.Add)) or (isinstance(p, ast.Call) and call_attr(p) in ('write', 'spawn', 'join'))
+        if not ok:
+          bad.append(U(pp if pp is not None else p)[:60])
+  ctx.ob('C14.R1', f, 'the request payload is only measured for its prefix and sent', bool(pl) and not bad, 'the payload %s is also used in %s' % (pl, bad), why)
